@@ -896,3 +896,32 @@ func TestVerif_C06C17_CaptureKinds(t *testing.T) {
 	captureKindCases(func(format string, args ...interface{}) { res.violate(format, args...) }, func() { res.Evaluations++; res.Distinct++ })
 	res.emit(t)
 }
+
+// TestVerif_C18_MapperOrder: the mapper-order scenarios as a bounded stand-in of the table Build makes of the Map()
+// options (overlapping token-type selections, untyped mappers registered between typed ones).
+func TestVerif_C18_MapperOrder(t *testing.T) {
+	res := &xResult{Check: "mapper order", Property: "C18", Exhaustive: true,
+		Bound: "6 option lists (0-5 untyped Map() options interleaved with typed ones on Ident, String, Int and on Ident+String together), one input of 7 tokens parsed twice with each",
+		Rule: "(option list, parse) pairs; all are non-trivial"}
+	pr := &pProbe{}
+	mapperOrderCases(pr)
+	res.Evaluations, res.Distinct = pr.Tried, pr.Tried
+	for _, f := range pr.Failures {
+		res.violate("%s", f)
+	}
+	res.emit(t)
+}
+
+// TestVerif_C01C19_TagMeaning: bracket groups combined with postfix modifiers mean what the tag says.
+func TestVerif_C01C19_TagMeaning(t *testing.T) {
+	res := &xResult{Check: "tag meaning", Property: "C01 C19", Exhaustive: true,
+		Bound: "4 grammars combining { } [ ] ( ) with ! ? * + x 2-3 inputs each",
+		Rule: "(grammar, input) pairs; all are non-trivial"}
+	pr := &pProbe{}
+	tagMeaningCases(pr, []participle.Option{participle.Lexer(probeLexer), participle.Elide("Whitespace", "Comment")})
+	res.Evaluations, res.Distinct = pr.Tried, pr.Tried
+	for _, f := range pr.Failures {
+		res.violate("%s", f)
+	}
+	res.emit(t)
+}
